@@ -9,7 +9,7 @@ from ..cfg import NORMAL, Node, handler_classes
 from ..core import Ctx
 from ..flow import ALL, find_path, names_in
 from ..model import AnalysisError, FunctionInfo, dotted, norm_text
-from .common import code_branches, effective_compare, edge_target, handler_exits, handler_nodes, in_handler, kwarg, reachable_from
+from .common import code_branches, effective_compare, facts_at, edge_target, handler_exits, handler_nodes, in_handler, kwarg, reachable_from
 
 EXPLANATION = (
     "Static cross-check of the sibling StorageBackend implementations: (R1) both override every abstract method with "
@@ -121,6 +121,34 @@ def r2(ctx: Ctx) -> None:
     ctx.ob("C20.R2", osk or ex_m, "open_seekable learns the size through get_size (not-found mapping included)", None, ok, "", text="open_seekable")
 
 
+def _under_retry(ctx: Ctx, f: FunctionInfo, depth: int = 0, seen: Optional[Set[str]] = None) -> bool:
+    """Does function f only ever run inside with_s3_retry?  Either f (a closure / method) is handed to with_s3_retry as
+    its operation (directly or wrapped in functools.partial), or every call site of f lies in a function that does."""
+    seen = seen if seen is not None else set()
+    if f.qname in seen or depth > 5:
+        return False
+    seen.add(f.qname)
+    scopes = [f.parent] if f.parent is not None else []
+    if f.cls is not None:
+        scopes += [m_ for m_ in f.cls.methods.values()] + [x for m_ in f.cls.methods.values() for x in m_.nested.values()]
+    for sc in scopes:
+        if sc is None:
+            continue
+        for r in ctx.cfg(sc).calls():
+            if not (isinstance(r.ast, ast.Call) and r.ast.args):
+                continue
+            if not (any(t.name == "with_s3_retry" for t in ctx.eff.callees(sc, r)) or (dotted(r.ast.func) or "").endswith("with_s3_retry")):
+                continue
+            op = r.ast.args[0]
+            if isinstance(op, ast.Call) and (dotted(op.func) or "").split(".")[-1] == "partial" and op.args:
+                op = op.args[0]
+            if (isinstance(op, ast.Name) and op.id == f.name and f.parent is sc) or \
+                    (isinstance(op, ast.Attribute) and op.attr == f.name and f.cls is not None and f.parent is None):
+                return True
+    sites = ctx.eff.call_sites.get(f.qname, [])
+    return bool(sites) and all(_under_retry(ctx, caller, depth + 1, seen) for caller, _n in sites)
+
+
 def r3(ctx: Ctx) -> None:
     ctx.rule("C20.R3", "retry discipline: every boto call of the backend and the range reader (except the conditional PUT) runs in "
              "a closure passed to with_s3_retry; permanent errors re-raise before any sleep; attempts are bounded", 12)
@@ -142,14 +170,7 @@ def r3(ctx: Ctx) -> None:
                         continue
                     if m.name == "__init__":
                         continue
-                    in_closure = f is not m
-                    passed = False
-                    if in_closure:
-                        for r in ctx.cfg(m).calls():
-                            if any(t.name == "with_s3_retry" for t in ctx.eff.callees(m, r)) and isinstance(r.ast, ast.Call) and r.ast.args \
-                                    and isinstance(r.ast.args[0], ast.Name) and r.ast.args[0].id == f.name:
-                                passed = True
-                    ctx.ob("C20.R3", f, f"boto {leaf} runs under with_s3_retry", n, in_closure and passed,
+                    ctx.ob("C20.R3", f, f"boto {leaf} runs under with_s3_retry", n, _under_retry(ctx, f),
                            "a transient error on this request is masked within the retry budget (#39/#50)")
     rb = ctx.fn("s3_consistency.S3ConsistencyHandler.retry_with_backoff")
     g = ctx.cfg(rb)
@@ -268,6 +289,15 @@ def r4(ctx: Ctx) -> None:
                 # cond(Not(x)) swaps edges: branch test text is `key.endswith('/')`
                 if t is not None and l.id in reachable_from(g, t, NORMAL) and (fl is None or l.id not in reachable_from(g, fl, NORMAL)):
                     ok = True
+            if not ok:
+                # ... or short-circuit: `key.endswith('/') and <listing>` (the listing possibly inside a helper analysed in place)
+                mine = [l.ast] + [fr.node for fr in l.frames if fr.kind == "inline"]
+                for bo in [x for x in ast.walk(nf.node) if isinstance(x, ast.BoolOp) and isinstance(x.op, ast.And)]:
+                    for i, opnd in enumerate(bo.values):
+                        if i > 0 and any(any(y is c for y in ast.walk(opnd)) for c in mine) and any(
+                                isinstance(e, ast.Call) and isinstance(e.func, ast.Attribute) and e.func.attr == "endswith"
+                                and e.args and isinstance(e.args[0], ast.Constant) and e.args[0].value == "/" for e in bo.values[:i]):
+                            ok = True
             ctx.ob("C20.R4", nf, "prefix listing only for directory-like keys", l, ok,
                    "existence of exact keys only: 'data/x.parquet' is not 'present' because objects exist under that name")
         if not ls:
@@ -442,16 +472,29 @@ def r6(ctx: Ctx) -> None:
     rs = [n for n in g.nodes if n.kind == "raise" and n.raised == "ValueError"]
     whence_br = [b for b in g.nodes if b.kind == "branch" and "whence" in b.text]
     ok = len(whence_br) >= 3 and len(rs) >= 2
-    ctx.ob("C20.R6", sk, "unknown whence raises", whence_br[-1] if whence_br else None, ok, "SET / CUR / END else ValueError")
+    if not ok:
+        # table-driven form: the handler looked up for `whence` is None -> ValueError
+        for r_ in rs:
+            for pol, e, at in facts_at(ctx, sk, r_):
+                if pol == "null" and isinstance(e, ast.Name) and "whence" in ssl.origins(e, at)["names"]:
+                    ok = True
+    ctx.ob("C20.R6", sk, "unknown whence raises", whence_br[-1] if whence_br else (rs[0] if rs else None), ok, "SET / CUR / END else ValueError")
     grf = rf.methods.get("_get_range")
     ok = False
     tmpl = None
     if grf is not None:
         pn = [p.name for p in grf.params if p.name != "self"]
-        for nf in grf.nested.values():
+        cands = list(grf.nested.values())
+        # ... or a method of the class handed to the retry helper (functools.partial(self._get_range_once, first, last))
+        for x in ast.walk(grf.node):
+            if isinstance(x, ast.Attribute) and isinstance(x.value, ast.Name) and x.value.id == "self" and grf.cls is not None \
+                    and x.attr in grf.cls.methods and grf.cls.methods[x.attr] is not grf and not ctx.prog.is_known(grf.cls.methods[x.attr]):
+                cands.append(grf.cls.methods[x.attr])
+        for nf in cands:
+            pn_ = pn if nf.parent is grf else [p.name for p in nf.params if p.name != "self"]
             for n in ctx.cfg(nf).calls():
                 rk = kwarg(n.ast, "Range")
                 if rk is not None:
                     tmpl = _str_template(ctx, grf, nf, rk)
-                    ok = len(pn) >= 2 and tmpl == "bytes={%s}-{%s}" % (pn[0], pn[1])
+                    ok = len(pn_) >= 2 and tmpl == "bytes={%s}-{%s}" % (pn_[0], pn_[1])
     ctx.ob("C20.R6", grf or sk, "Range header = bytes=first-last", None, ok, f"exactly the clamped interval is requested (header template: {tmpl!r})")
